@@ -129,6 +129,10 @@ Definition is_term (c : N) : bool := (c =? ch_sp) || (c =? ch_tab) || (c =? ch_n
 Definition dollar_lit_u : list N := [32; 9; 10; 37; 43; 61; 58; 44; 46; 47].
 Definition dollar_lit_d : list N := [34; 32; 9; 10; 39; 37; 43; 61; 58; 44; 46; 47].
 
+(* `$_` is a special parameter of bash (last argument of the previous command): outside the fragment *)
+Definition var_value (env : envmap) (n : str) : option str :=
+  if str_eqb n [95] then None else Some (getenv env n).
+
 Definition u_char (acc : str) (c : N) : stepres :=
   if c =? ch_nul then Fail
   else if c =? ch_sq then Cont MS acc
@@ -163,14 +167,16 @@ Definition step (env : envmap) (m : mode) (acc : str) (c : N) : stepres :=
   | MDD => if name_start c then Cont (MDV [c]) acc
            else if mem c dollar_lit_d then d_char (acc ++ [ch_dollar]) c
            else Fail
-  | MUV n => if name_char c then Cont (MUV (n ++ [c])) acc else u_char (acc ++ getenv env n) c
-  | MDV n => if name_char c then Cont (MDV (n ++ [c])) acc else d_char (acc ++ getenv env n) c
+  | MUV n => if name_char c then Cont (MUV (n ++ [c])) acc
+             else match var_value env n with Some v => u_char (acc ++ v) c | None => Fail end
+  | MDV n => if name_char c then Cont (MDV (n ++ [c])) acc
+             else match var_value env n with Some v => d_char (acc ++ v) c | None => Fail end
   end.
 
 Definition at_end (env : envmap) (m : mode) (acc : str) : option (str * str) :=
   match m with
   | MU => Some (acc, [])
-  | MUV n => Some (acc ++ getenv env n, [])
+  | MUV n => match var_value env n with Some v => Some (acc ++ v, []) | None => None end
   | MUD => Some (acc ++ [ch_dollar], [])
   | _ => None
   end.
@@ -255,14 +261,11 @@ Definition render_export (kw : str * str) : str :=
 
 Definition render_exports (l : list (str * str)) : str := concat (map render_export l).
 
-(* ---- variable-name validation of input.py: re `^[A-Za-z_][A-Za-z0-9_]*$`
-        applied with match()/search(): `$` also matches in front of a final
-        newline, so NAME and NAME\n are accepted. *)
-Fixpoint last_is_nl (k : str) : bool :=
-  match k with [] => false | [c] => c =? ch_nl | _ :: r => last_is_nl r end.
-
-Definition name_ok_impl (k : str) : bool :=
-  valid_name k || (last_is_nl k && valid_name (removelast k)).
+(* ---- variable-name validation of input.py (KeyValDefineValidator.VAR_NAME,
+        varNameUseSchema): re `^[A-Za-z_][A-Za-z0-9_]*\Z`.  (Before fix 496b939
+        the pattern ended in `$`, which also matches in front of a final
+        newline: NAME\n was accepted and split the `export` line.) *)
+Definition name_ok_impl (k : str) : bool := valid_name k.
 
 (* ---- os.path.normpath / abspath for the absolute result of join(cwd, p) *)
 Fixpoint split_slash (s : str) (cur : str) : list str :=
@@ -390,9 +393,14 @@ Definition proc_env (preserve : bool) (sp : spec) (environ : envmap) : envmap :=
   | None => h
   end.
 
+(* bash start-up: a shell that does not inherit PATH gives the variable its
+   compiled-in default value (dpath; read from the real bash by the harness) *)
+Definition bash_init (dpath : str) (e : envmap) : envmap :=
+  match lookup e s_PATH with Some _ => e | None => set_var e s_PATH dpath end.
+
 (* what the step script finds in its environment after the prolog ran *)
-Definition script_env (preserve : bool) (cwd : str) (sp : spec) (environ : envmap) : option envmap :=
-  run_exports (proc_env preserve sp environ) (prolog_exports cwd sp).
+Definition script_env (dpath : str) (preserve : bool) (cwd : str) (sp : spec) (environ : envmap) : option envmap :=
+  run_exports (bash_init dpath (proc_env preserve sp environ)) (prolog_exports cwd sp).
 
 (* ---- BashLanguage.__setupExec: argument vector; positional parameters *)
 Definition s_dashdash : str := [45; 45].
@@ -459,31 +467,38 @@ Definition fingerprint_env (preserve : bool) (sp : spec) (environ : envmap) (fpc
   run_exports (fingerprint_proc_env preserve sp environ fpcwd) (fingerprint_exports stepenv varset).
 
 (* ---- StepSpec.fromStep: depMounts *)
+Record dep := { d_valid : bool; d_storage : str; d_exec : str }.
+
+(* a step with its first argument (the previous step of the same package for
+   build/package steps) and its other dependencies *)
 Inductive stepT :=
-| StepT (valid checkout : bool) (storage exec : str) (args : list stepT).
+| SNoArg (valid checkout : bool) (storage exec : str)
+| SArg (valid checkout : bool) (storage exec : str) (first : stepT) (others : list dep).
 
-Definition st_valid (s : stepT) := match s with StepT v _ _ _ _ => v end.
-Definition st_checkout (s : stepT) := match s with StepT _ c _ _ _ => c end.
-Definition st_storage (s : stepT) := match s with StepT _ _ p _ _ => p end.
-Definition st_exec (s : stepT) := match s with StepT _ _ _ p _ => p end.
-Definition st_args (s : stepT) := match s with StepT _ _ _ _ a => a end.
+Definition st_valid (s : stepT) := match s with SNoArg v _ _ _ => v | SArg v _ _ _ _ _ => v end.
+Definition st_checkout (s : stepT) := match s with SNoArg _ c _ _ => c | SArg _ c _ _ _ _ => c end.
+Definition st_storage (s : stepT) := match s with SNoArg _ _ p _ => p | SArg _ _ p _ _ _ => p end.
+Definition st_exec (s : stepT) := match s with SNoArg _ _ _ p => p | SArg _ _ _ p _ _ => p end.
+Definition st_dep (s : stepT) : dep := {| d_valid := st_valid s; d_storage := st_storage s; d_exec := st_exec s |}.
+Definition st_args (s : stepT) : list dep :=
+  match s with SNoArg _ _ _ _ => [] | SArg _ _ _ _ f o => st_dep f :: o end.
 
-(* extra = step; while extra.isValid() and not extra.isCheckoutStep() and extra.getArguments():
-       extra = extra.getArguments()[0]; if extra.isValid(): append *)
+(* extra = step
+   while extra.isValid() and not extra.isCheckoutStep() and len(extra.getArguments()) > 0:
+       extra = extra.getArguments()[0]
+       if extra.isValid(): depMounts.append(...) *)
 Fixpoint chain_mounts (s : stepT) : list (str * str) :=
   match s with
-  | StepT valid checkout _ _ args =>
+  | SNoArg _ _ _ _ => []
+  | SArg valid checkout _ _ a _ =>
       if valid && negb checkout then
-        match args with
-        | [] => []
-        | a :: _ => (if st_valid a then [(st_storage a, st_exec a)] else []) ++ chain_mounts a
-        end
+        (if st_valid a then [(st_storage a, st_exec a)] else []) ++ chain_mounts a
       else []
   end.
 
-(* all_deps = step.getAllDepSteps() = arguments ++ tools (sorted by name) ++ [sandbox] *)
-Definition dep_mounts (s : stepT) (tools_and_sandbox : list stepT) : list (str * str) :=
-  map (fun d => (st_storage d, st_exec d)) (filter st_valid (st_args s ++ tools_and_sandbox))
+(* step.getAllDepSteps() = arguments ++ tools (sorted by name) ++ [sandbox] *)
+Definition dep_mounts (s : stepT) (tools_and_sandbox : list dep) : list (str * str) :=
+  map (fun d => (d.(d_storage), d.(d_exec))) (filter d_valid (st_args s ++ tools_and_sandbox))
   ++ chain_mounts s.
 
 (* ---- the sandbox helper command line *)
@@ -517,7 +532,21 @@ Definition s_nojenkins : str := [110; 111; 106; 101; 110; 107; 105; 110; 115].
 
 Definition pjoin (a b : str) : str := if last_is_slash a then a ++ b else a ++ [ch_slash] ++ b.
 
-Definition host_mount_args (w : world) (jenkins : bool) (m : str * str * list str) : list str :=
+(* the helper command line as a list of items *)
+Inductive item :=
+| IFlag (c : N)                                   (* -c *)
+| IArg (c : N) (x : str)                          (* -c x *)
+| IMount (src : str) (tgt : option (bool * str)). (* -M src [-m tgt | -w tgt] *)
+
+Definition render_item (i : item) : list str :=
+  match i with
+  | IFlag c => [o c]
+  | IArg c x => [o c; x]
+  | IMount s None => [oM; s]
+  | IMount s (Some (rw, t)) => [oM; s; if rw then ow else om; t]
+  end.
+
+Definition host_mount_items (w : world) (jenkins : bool) (m : str * str * list str) : list item :=
   let '(hostp, sbp, opts) := m in
   if str_mem (if jenkins then s_nojenkins else s_nolocal) opts then []
   else
@@ -525,19 +554,21 @@ Definition host_mount_args (w : world) (jenkins : bool) (m : str * str * list st
     if str_mem s_nofail opts && negb (str_mem hp w.(w_exists)) then []
     else
       let sp := w.(w_subst) sbp in
-      [oM; hp] ++ (if str_mem s_rw opts then [ow; sp]
-                   else if negb (str_eqb hp sp) then [om; sp] else []).
+      [IMount hp (if str_mem s_rw opts then Some (true, sp)
+                  else if negb (str_eqb hp sp) then Some (false, sp) else None)].
 
-Definition fat_cmds (w : world) (jenkins : bool) (f : fatspec) : list str :=
-  [w.(w_helper); oS; w.(w_tmp); oH; s_bob; od; s_tmp]
-  ++ flat_map (fun e => [oM; pjoin (abspath w.(w_cwd) f.(fs_root)) e; om; ch_slash :: e]) w.(w_image_entries)
-  ++ flat_map (host_mount_args w jenkins) f.(fs_mounts)
-  ++ (if str_eqb f.(fs_user) s_root then [or_] else if str_eqb f.(fs_user) s_USER then [oi] else []).
+Definition fat_items (w : world) (jenkins : bool) (f : fatspec) : list item :=
+  [IArg 83 w.(w_tmp); IArg 72 s_bob; IArg 100 s_tmp]
+  ++ map (fun e => IMount (pjoin (abspath w.(w_cwd) f.(fs_root)) e) (Some (false, ch_slash :: e))) w.(w_image_entries)
+  ++ flat_map (host_mount_items w jenkins) f.(fs_mounts)
+  ++ (if str_eqb f.(fs_user) s_root then [IFlag 114] else if str_eqb f.(fs_user) s_USER then [IFlag 105] else []).
 
-Definition slim_cmds (w : world) : list str :=
-  [w.(w_helper); oS; pjoin w.(w_tmp) s_sandbox; oi; od; s_tmp]
-  ++ flat_map (fun e => if str_eqb e (tl s_tmp) then [] else [oM; ch_slash :: e; om; ch_slash :: e]) w.(w_root_entries)
-  ++ [oM; pjoin w.(w_tmp) s_whiteout; ow; w.(w_cwd)].
+Definition s_tmp_name : str := [116; 109; 112].   (* tmp *)
+
+Definition slim_items (w : world) : list item :=
+  [IArg 83 (pjoin w.(w_tmp) s_sandbox); IFlag 105; IArg 100 s_tmp]
+  ++ flat_map (fun e => if str_eqb e s_tmp_name then [] else [IMount (ch_slash :: e) (Some (false, ch_slash :: e))]) w.(w_root_entries)
+  ++ [IMount (pjoin w.(w_tmp) s_whiteout) (Some (true, w.(w_cwd)))].
 
 (* BashLanguage.__scriptFilePaths *)
 Definition script_paths (w : world) (sp : spec) : str * str :=
@@ -552,18 +583,27 @@ Definition script_paths (w : world) (sp : spec) : str * str :=
 Definition has_sandbox (sp : spec) : bool :=
   match sp.(sp_fat) with Some _ => true | None => sp.(sp_slim) end.
 
-(* executeStep: the wrapper in front of the interpreter call; [] without sandbox *)
+Definition script_item (w : world) (sp : spec) : item :=
+  IMount (fst (script_paths w sp)) (Some (false, snd (script_paths w sp))).
+Definition envfile_items (w : world) (sp : spec) : list item :=
+  match sp.(sp_envfile) with Some f => [IMount (abspath w.(w_cwd) f) (Some (true, s_bob_env))] | None => [] end.
+Definition workspace_item (w : world) (sp : spec) : item :=
+  IMount (abspath w.(w_cwd) sp.(sp_ws_storage)) (Some (true, abspath w.(w_cwd) sp.(sp_ws_exec))).
+Definition dep_item (w : world) (d : str * str) : item :=
+  IMount (abspath w.(w_cwd) (fst d)) (Some (false, abspath w.(w_cwd) (snd d))).
+
+(* executeStep: options of the wrapper in front of the interpreter call *)
+Definition sandbox_items (w : world) (sp : spec) : list item :=
+  (match sp.(sp_fat) with Some f => fat_items w sp.(sp_jenkins) f | None => slim_items w end)
+  ++ [script_item w sp]
+  ++ (if sp.(sp_net) then [] else [IFlag 110])
+  ++ envfile_items w sp
+  ++ [workspace_item w sp]
+  ++ [IArg 87 (abspath w.(w_cwd) sp.(sp_ws_exec))]
+  ++ map (dep_item w) sp.(sp_dep_mounts).
+
 Definition sandbox_argv (w : world) (sp : spec) : list str :=
-  if has_sandbox sp then
-    let cwd := w.(w_cwd) in
-    (match sp.(sp_fat) with Some f => fat_cmds w sp.(sp_jenkins) f | None => slim_cmds w end)
-    ++ [oM; fst (script_paths w sp); om; snd (script_paths w sp)]
-    ++ (if sp.(sp_net) then [] else [on])
-    ++ (match sp.(sp_envfile) with Some f => [oM; abspath cwd f; ow; s_bob_env] | None => [] end)
-    ++ [oM; abspath cwd sp.(sp_ws_storage); ow; abspath cwd sp.(sp_ws_exec)]
-    ++ [oW; abspath cwd sp.(sp_ws_exec)]
-    ++ flat_map (fun d => [oM; abspath cwd (fst d); om; abspath cwd (snd d)]) sp.(sp_dep_mounts)
-    ++ [s_dashdash]
+  if has_sandbox sp then w.(w_helper) :: flat_map render_item (sandbox_items w sp) ++ [s_dashdash]
   else [].
 
 (* ---- namespace-sandbox.c option semantics for the mount table:
@@ -575,7 +615,8 @@ Record mount := { m_src : str; m_tgt : str; m_rw : bool }.
 Definition flush (pending : option str) : list mount :=
   match pending with Some s => [{| m_src := s; m_tgt := s; m_rw := false |}] | None => [] end.
 
-Definition opts_with_arg : list str := [oS; oH; od; oW; o 108; o 76].
+Definition opts_with_arg : list N := [83; 72; 100; 87; 108; 76].    (* S H d W l L *)
+Definition flags_no_arg : list N := [67; 68; 105; 110; 114].         (* C D i n r *)
 
 Fixpoint helper_mounts (argv : list str) (pending : option str) {struct argv} : list mount :=
   match argv with
@@ -592,7 +633,7 @@ Fixpoint helper_mounts (argv : list str) (pending : option str) {struct argv} : 
         | t :: r', Some s => {| m_src := s; m_tgt := t; m_rw := str_eqb a ow |} :: helper_mounts r' None
         | _, _ => []         (* usage error: the helper exits *)
         end
-      else if str_mem a opts_with_arg then
+      else if existsb (fun c => str_eqb a (o c)) opts_with_arg then
         match r with _ :: r' => helper_mounts r' pending | [] => flush pending end
       else helper_mounts r pending
   end.
@@ -600,6 +641,14 @@ Fixpoint helper_mounts (argv : list str) (pending : option str) {struct argv} : 
 (* the mount table of a sandboxed step (argv[0] is the helper itself) *)
 Definition mount_plan (w : world) (sp : spec) : list mount :=
   helper_mounts (tl (sandbox_argv w sp)) None.
+
+(* the mounts requested by a list of items, in order *)
+Definition item_mounts (i : item) : list mount :=
+  match i with
+  | IMount s None => [{| m_src := s; m_tgt := s; m_rw := false |}]
+  | IMount s (Some (rw, t)) => [{| m_src := s; m_tgt := t; m_rw := rw |}]
+  | _ => []
+  end.
 
 (* ---- which mount a path inside the sandbox resolves to: the last mount
    whose target is the path itself or one of its ancestors *)
@@ -611,3 +660,39 @@ Fixpoint resolve (plan : list mount) (p : str) (cur : option mount) : option mou
   | [] => cur
   | m :: r => resolve r p (if under m.(m_tgt) p then Some m else cur)
   end.
+
+(* ------------------------------------------------------------------
+   predicates and abbreviations used in the theorem statements *)
+Definition no_nul (s : str) : Prop := ~ In ch_nul s.
+
+(* what the theorems assume about a step specification: the dict has unique
+   keys and no string contains a NUL character (not representable in a
+   process environment or in a bash word) *)
+Definition spec_ok (cwd : str) (sp : spec) : Prop :=
+  NoDup (keys sp.(sp_env)) /\
+  (forall k v, In (k, v) sp.(sp_env) -> no_nul v) /\
+  Forall no_nul (map (abspath cwd) sp.(sp_paths)) /\
+  Forall no_nul (map (abspath cwd) sp.(sp_libs)) /\
+  no_nul (abspath cwd sp.(sp_ws_exec)).
+
+Definition path_value (ps : list str) (inherited : str) : str := join_with [ch_colon] (ps ++ [inherited]).
+
+(* the host variable k reaches the interpreter *)
+Definition host_visible (preserve : bool) (wl : list str) (environ : envmap) (k : str) : Prop :=
+  In k (keys environ) /\ (preserve = true \/ In k wl).
+
+Definition mk_mount (s t : str) (rw : bool) : mount := {| m_src := s; m_tgt := t; m_rw := rw |}.
+Definition ws_mount (w : world) (sp : spec) : mount :=
+  mk_mount (abspath w.(w_cwd) sp.(sp_ws_storage)) (abspath w.(w_cwd) sp.(sp_ws_exec)) true.
+Definition dep_mount (w : world) (d : str * str) : mount :=
+  mk_mount (abspath w.(w_cwd) (fst d)) (abspath w.(w_cwd) (snd d)) false.
+Definition whiteout_mount (w : world) : mount := mk_mount (pjoin w.(w_tmp) s_whiteout) w.(w_cwd) true.
+Definition script_mount (w : world) (sp : spec) : mount :=
+  mk_mount (fst (script_paths w sp)) (snd (script_paths w sp)) false.
+Definition envfile_mount (w : world) (f : str) : mount := mk_mount (abspath w.(w_cwd) f) s_bob_env true.
+
+(* d is an earlier step of the same package reached from s by following the
+   first argument through valid non-checkout steps *)
+Inductive own_chain : stepT -> stepT -> Prop :=
+| oc_here : forall p e a o, own_chain (SArg true false p e a o) a
+| oc_next : forall p e a o d, own_chain a d -> own_chain (SArg true false p e a o) d.
